@@ -424,4 +424,48 @@ def resumeChecks (r : Resume) : Out :=
     .alert 47 "Client sent invalid Heartbeat extension"
   else .pass
 
+/-! ### early data: undecryptable records are skipped only up to `max_early_data` bytes
+
+  `RecordLayer.recvRecord`: on TLSBadRecordMAC, `if early_data_ok and _early_data_processed +
+  len(data) < max_early_data: _early_data_processed += len(data); continue` else re-raise
+  (answered with bad_record_mac).  `sizes` are the lengths of the undecryptable records. -/
+
+/-- (records skipped, whether the call ended with bad_record_mac) -/
+def earlySkip (maxEarly : Nat) : Nat → List Nat → Nat × Bool
+  | _, [] => (0, false)
+  | processed, n :: rest =>
+    if processed + n < maxEarly then
+      let r := earlySkip maxEarly (processed + n) rest
+      (r.1 + 1, r.2)
+    else (0, true)
+
+/-- bytes skipped by `earlySkip` -/
+def earlySkipped (maxEarly : Nat) (processed : Nat) (sizes : List Nat) : Nat :=
+  ((sizes.take (earlySkip maxEarly processed sizes).1).foldl (· + ·) 0)
+
+/-! ### the session object of a resumed connection is the cached one
+
+  `sessionCache[id]` hands out the Session object that the failed connection's `_shutdown(False)`
+  marks not resumable (`self.session = session` in the resumption branch, `sessionCache[id] =
+  self.session` after a full handshake): the cache entry and the connection alias one object. -/
+
+/-- session id -> resumable flag of the (shared) Session object -/
+abbrev Cache := List (Nat × Bool)
+
+/-- `SessionCache.__getitem__` + `Session.valid()` -/
+def Cache.resumes (c : Cache) (i : Nat) : Bool :=
+  match c.find? (·.1 == i) with
+  | some (_, r) => r
+  | none => false
+
+/-- `_shutdown(resumable)` on a connection whose `session` is the entry `i` -/
+def Cache.shutdown (c : Cache) (i : Nat) (resumable : Bool) : Cache :=
+  if resumable then c else c.map fun e => if e.1 == i then (e.1, false) else e
+
+/-- a history: connections that use entry `i` (after a full handshake or a resumption) and end with
+    `_shutdown(resumable)`; does a later connection offering `i` resume? -/
+def Cache.afterHistory (c : Cache) (i : Nat) : List Bool → Cache
+  | [] => c
+  | r :: rest => Cache.afterHistory (c.shutdown i r) i rest
+
 end Tls.Flights
